@@ -51,6 +51,9 @@ func startServer(persist string) (*Server, error) {
 		args = append(args, "-persist", persist)
 	}
 	self, _ := os.Executable()
+	if serverBinary != "" {
+		self = serverBinary
+	}
 	cmd := exec.Command(self, args...)
 	s := &Server{cmd: cmd, Port: port, exited: make(chan struct{})}
 	cmd.Stderr = &s.stderr
